@@ -455,6 +455,19 @@ def check_text_writer(ctx):
     fn = normal.normalised(ctx, f, aliases=False, comps=False, ifexp=False)
     body = [s for s in fn.body if not (isinstance(s, ast.Expr) and isinstance(s.value, ast.Constant))]
     loops = [s for s in body if isinstance(s, ast.For)]
+    # a numeric escape `hex(<text>.encode(codec)[0])` writes ONE byte: the text it is taken from must be one character of
+    # the value (the target of a loop over the value itself, or a plain copy of it), not a run of characters
+    chars = {lp.target.id for lp in ast.walk(fn) if isinstance(lp, ast.For) and isinstance(lp.target, ast.Name) and norm(lp.iter) == "self._value"}
+    for _ in range(3):
+        chars |= {t.id for st in ast.walk(fn) if isinstance(st, ast.Assign) and isinstance(st.value, ast.Name) and st.value.id in chars for t in st.targets if isinstance(t, ast.Name)}
+    for c in calls_in(fn):
+        if call_name(c) == "hex" and len(c.args) == 1 and isinstance(c.args[0], ast.Subscript) and isinstance(c.args[0].value, ast.Call) and isinstance(c.args[0].value.func, ast.Attribute) \
+                and c.args[0].value.func.attr == "encode" and isinstance(c.args[0].value.func.value, ast.Name):
+            src = c.args[0].value.func.value.id
+            ok = src in chars
+            ctx.ob("C15.T1", q, ok, "a numeric escape is the byte of one character of the value" if ok else
+                   f"`{norm(c)}` writes one byte of `{src}`, which is not a single character of the value (a run of characters): every further character of a run of non-printable characters is dropped from the text, the reader rebuilds a shorter value",
+                   key="escape-per-character", where=f.where)
     ctx.require(len(loops) == 1 and isinstance(loops[0].target, ast.Name) and norm(loops[0].iter) == "self._value" and not loops[0].orelse, f"{q}: the loop over the characters of the value was not found")
     loop = loops[0]
     i = body.index(loop)
